@@ -404,6 +404,7 @@ class Check:
         self._findings = [f for f in load_findings().get("findings", []) if f.get("property") == prop]
         shutil.rmtree(os.path.join(REPLAYS, prop), ignore_errors=True)
         self._n = 0
+        self.sigs = {}
 
     # ---- coverage counters
     def add(self, key, n=1):
@@ -441,6 +442,8 @@ class Check:
             return False
         self.violations += 1
         self._n += 1
+        key = json.dumps(sig, sort_keys=True, default=str)
+        self.sigs[key] = self.sigs.get(key, 0) + 1
         d = os.path.join(REPLAYS, self.prop)
         os.makedirs(d, exist_ok=True)
         path = os.path.join(d, "violation_%03d.json" % self._n)
@@ -456,6 +459,11 @@ class Check:
         cov = dict(self.cov)
         if self.known:
             cov["known_findings_hit"] = self.known
+        if self.sigs:
+            cov["violation_signatures"] = self.sigs
+            print("violations by input signature:")
+            for k, n in sorted(self.sigs.items(), key=lambda kv: -kv[1])[:40]:
+                print("  %5d  %s" % (n, k[:300]))
         ev = {"property_id": self.prop, "tier": tier(), "seed": seed(), "level": self.level, "coverage": cov,
               "assumptions": self.assumptions, "wall_s": round(time.time() - self.t0 + extra_wall, 2),
               "violations": self.violations}
